@@ -3,6 +3,7 @@ pub mod c02;
 pub mod c03;
 pub mod c04;
 pub mod c05;
+pub mod c06;
 pub mod c07;
 pub mod c08;
 pub mod c11;
@@ -13,7 +14,7 @@ pub mod printing;
 use crate::framework::Ctx;
 use serde_json::Value as J;
 
-pub const ALL: &[&str] = &["C01", "C02", "C03", "C04", "C05", "C07", "C08", "C11", "C12", "C13"];
+pub const ALL: &[&str] = &["C01", "C02", "C03", "C04", "C05", "C06", "C07", "C08", "C11", "C12", "C13"];
 
 pub fn run(ctx: &mut Ctx) {
 	match ctx.prop {
@@ -24,6 +25,7 @@ pub fn run(ctx: &mut Ctx) {
 		"C08" => c08::run(ctx),
 		"C13" => c13::run(ctx),
 		"C05" => c05::run(ctx),
+		"C06" => c06::run(ctx),
 		"C07" => c07::run(ctx),
 		"C11" => c11::run(ctx),
 		"C12" => c12::run(ctx),
@@ -40,6 +42,7 @@ pub fn replay(prop: &str, family: &str, case: &J) -> Result<(), String> {
 		"C08" => c08::replay(family, case),
 		"C13" => c13::replay(family, case),
 		"C05" => c05::replay(family, case),
+		"C06" => c06::replay(family, case),
 		"C07" => c07::replay(family, case),
 		"C11" => c11::replay(family, case),
 		"C12" => c12::replay(family, case),
